@@ -214,3 +214,48 @@ Proof.
     pose proof (rsum_sq_zero (fun p : R * R => fst p - mean (xs ps)) ps H0 p1 H1).
     pose proof (rsum_sq_zero (fun p : R * R => fst p - mean (xs ps)) ps H0 p2 H2). simpl in *. lra.
 Qed.
+
+(* ---------------------------------------------------------------- the same estimator through raw sums
+   (linear-size expressions for the per-run interval certificates) *)
+Definition Sx (ps : list (R * R)) := rsum (xs ps).
+Definition Sy (ps : list (R * R)) := rsum (ys ps).
+Definition Sxx (ps : list (R * R)) := rsum (map (fun p => fst p * fst p) ps).
+Definition Sxy (ps : list (R * R)) := rsum (map (fun p => fst p * snd p) ps).
+Definition Dx (ps : list (R * R)) := rlen ps * Sxx ps - Sx ps * Sx ps.
+
+Lemma rlen_cons {A} (a : A) l : rlen (a :: l) = 1 + rlen l.
+Proof. unfold rlen. change (length (a :: l)) with (S (length l)). rewrite S_INR. ring. Qed.
+
+Lemma rsum_centered a b ps :
+  rsum (map (fun p : R * R => (fst p - a) * (snd p - b)) ps) = Sxy ps - a * Sy ps - b * Sx ps + rlen ps * a * b.
+Proof.
+  unfold Sxy, Sy, Sx, xs, ys. induction ps as [|p t IH].
+  - simpl. unfold rlen. simpl. ring.
+  - rewrite rlen_cons. simpl. rewrite IH. ring.
+Qed.
+
+Lemma rsum_centered_sq a ps :
+  rsum (map (fun p : R * R => (fst p - a) * (fst p - a)) ps) = Sxx ps - 2 * a * Sx ps + rlen ps * a * a.
+Proof.
+  unfold Sxx, Sx, xs. induction ps as [|p t IH].
+  - simpl. unfold rlen. simpl. ring.
+  - rewrite rlen_cons. simpl. rewrite IH. ring.
+Qed.
+
+Lemma ols_slope_sums ps : ps <> [] -> Dx ps <> 0 ->
+  ols_slope ps = (rlen ps * Sxy ps - Sx ps * Sy ps) / Dx ps.
+Proof.
+  intros Hne HD. pose proof (rlen_pos ps Hne) as Hn. unfold ols_slope, ssxym, ssxm.
+  rewrite rsum_centered, rsum_centered_sq. unfold mean. fold (Sx ps). fold (Sy ps).
+  assert (E1 : rlen (xs ps) = rlen ps) by (unfold xs; apply rlen_map).
+  assert (E2 : rlen (ys ps) = rlen ps) by (unfold ys; apply rlen_map).
+  rewrite E1, E2. unfold Dx in *. field. split; [exact HD|lra].
+Qed.
+
+Lemma ols_icpt_sums ps : ps <> [] -> ols_icpt ps = (Sy ps - ols_slope ps * Sx ps) / rlen ps.
+Proof.
+  intros Hne. pose proof (rlen_pos ps Hne) as Hn. unfold ols_icpt, mean. fold (Sx ps). fold (Sy ps).
+  assert (E1 : rlen (xs ps) = rlen ps) by (unfold xs; apply rlen_map).
+  assert (E2 : rlen (ys ps) = rlen ps) by (unfold ys; apply rlen_map).
+  rewrite E1, E2. field. lra.
+Qed.
